@@ -82,9 +82,12 @@ fn base_config(dir: &Path) -> Config {
     c
 }
 
-/// `child run <dir> <no_update 0|1>`: one validation run as `vrps` would do it; prints one JSON line.
-fn child_run(dir: &Path, no_update: bool) -> ! {
-    let config = base_config(dir);
+/// `child run <dir> <flags>`: one validation run as `vrps` would do it; prints one JSON line.
+/// Flags: `n` = without updates (no collector), `d` = "dirty" (no cleanup after the run), `-` = none.
+fn child_run(dir: &Path, flags: &str) -> ! {
+    let no_update = flags.contains('n');
+    let mut config = base_config(dir);
+    config.dirty_repository = flags.contains('d');
     let mut out = json!({"result": "", "payload": null, "kill_log": []});
     match Engine::new(&config, !no_update) {
         Err(_) => out["result"] = json!("engine"),
@@ -593,7 +596,10 @@ fn template() -> &'static Template {
         let built = build(&e2e_spec()).expect("build");
         let world = World::new_in(build_at(&built.spec, built.now).unwrap(), &dir).expect("world");
         world.serve_step(0).unwrap();
-        let r1 = spawn_child(&["run".into(), dir.display().to_string(), "0".into()], None, None);
+        // the first run skips the cleanup ("dirty"): a point that has never been retrieved is otherwise removed
+        // again when the whole run takes less than a second (its LastAttempt time, whole seconds, is then
+        // earlier than the run's start time)
+        let r1 = spawn_child(&["run".into(), dir.display().to_string(), "d".into()], None, None);
         assert_eq!(child_json(&r1)["result"], "ok", "first run: {}", r1.stdout);
         // a temporary file left behind by some earlier crash
         std::fs::create_dir_all(dir.join("cache/stored/tmp")).unwrap();
@@ -601,7 +607,7 @@ fn template() -> &'static Template {
         world.serve_step(1).unwrap();
         let refdir = tmp.path().join("reference");
         copy_dir(&dir, &refdir);
-        let r2 = spawn_child(&["run".into(), refdir.display().to_string(), "0".into()], None, None);
+        let r2 = spawn_child(&["run".into(), refdir.display().to_string(), "-".into()], None, None);
         let j2 = child_json(&r2);
         assert_eq!(j2["result"], "ok", "reference run: {}", r2.stdout);
         let expected = serde_json::to_value(expected_fresh(&built.truth, &ServePlan::step(1), &RunCfg::default())).unwrap();
@@ -628,7 +634,7 @@ fn run_e2e(input: &Value) -> CaseOut {
     let dir = tmp.path().join("d");
     copy_dir(&t.dir, &dir);
     // run 2, killed
-    let out = spawn_child(&["run".into(), dir.display().to_string(), "0".into()], Some(k), cut);
+    let out = spawn_child(&["run".into(), dir.display().to_string(), "-".into()], Some(k), cut);
     let u = e2e_universe(&dir, &t.built);
     // ---- the crash state, read back
     let mut views = Vec::new();
@@ -671,10 +677,10 @@ fn run_e2e(input: &Value) -> CaseOut {
     // (2) a run without updates: exactly what the store holds (every point in its old or its new version)
     let d_nu = tmp.path().join("nu");
     copy_dir(&dir, &d_nu);
-    let nu = child_json(&spawn_child(&["run".into(), d_nu.display().to_string(), "1".into()], None, None));
+    let nu = child_json(&spawn_child(&["run".into(), d_nu.display().to_string(), "n".into()], None, None));
     let nu_expected = serde_json::to_value(expected_fresh(&t.built.truth, &plan, &RunCfg::default())).unwrap();
     // (3) the next full run
-    let next = child_json(&spawn_child(&["run".into(), dir.display().to_string(), "0".into()], None, None));
+    let next = child_json(&spawn_child(&["run".into(), dir.display().to_string(), "-".into()], None, None));
     let ua_ok = ua_exit == "0";
     let nu_ok = nu["result"] == "ok" && nu["payload"] == nu_expected;
     let next_ok = next["result"] == "ok" && next["payload"] == t.reference;
@@ -696,8 +702,13 @@ fn gen_e2e(_rng: &mut Rng, tier: &str) -> Vec<(String, Value)> {
         let k = idx as u64 + 1;
         let id = l.split('|').next().unwrap();
         cases.push((format!("e2e.{}", id), json!({"stream": "e2e", "k": k, "cut": null})));
-        if is_write_label(label_code(id)) {
-            let cuts: &[u64] = if tier == "thorough" { &[0, 1, 2, 3] } else { &[1, 3] };
+        let code = label_code(id);
+        if is_write_label(code) {
+            // writes to the temporary file of a point update are invisible to every reader: quick tier = one
+            // torn write per kind
+            let tmp_write = matches!(code, 6 | 7 | 8);
+            let first = !t.labels[..idx].iter().any(|x| x.split('|').next().unwrap() == id);
+            let cuts: &[u64] = if tier == "thorough" { &[0, 1, 2, 3] } else if !tmp_write { &[1, 3] } else if first { &[1] } else { &[] };
             for c in cuts { cases.push((format!("e2e.{}.cut", id), json!({"stream": "e2e", "k": k, "cut": c}))); }
         }
     }
@@ -721,7 +732,7 @@ fn main() {
     if a.get(1).map(|s| s.as_str()) == Some("child") {
         let dir = PathBuf::from(&a[3]);
         match a[2].as_str() {
-            "run" => child_run(&dir, a[4] == "1"),
+            "run" => child_run(&dir, &a[4]),
             "vrps" => child_vrps(&dir),
             "unit" => child_unit(&dir, &serde_json::from_str(&a[4]).unwrap()),
             x => panic!("unknown child mode {}", x),
